@@ -46,7 +46,13 @@ def _verify_one(job):
                 "obligations": {}, "paths": 0, "reachable": 0, "queries": 0, "assumed": [], "wall": time.time() - t0,
                 "solver_time": 0.0, "sha": None, "notes": [], "exits": {}}
     obs = {}
+    import fnmatch
+    prop = job[3] if len(job) > 3 else None
     for name, e in rep.obligations.items():
+        if prop is not None and c.clause_props:
+            owners = [ps for pat, ps in c.clause_props.items() if fnmatch.fnmatch(name, pat)]
+            if owners and not any(prop in ps for ps in owners):
+                continue
         obs[name] = {
             "status": e["status"], "solvers": sorted(e["solvers"]), "time": round(e["time"], 4), "paths": e["paths"],
             "where": e["where"],
@@ -89,7 +95,7 @@ def run_check(prop, tier, repo_root, only=None, verbose=False):
     if only:
         keys = [k for k in keys if only in k]
     lemma_idx = [i for i, l in enumerate(db.lemmas) if prop in l.get("serves", [])]
-    jobs = [(repo_root, k) for k in keys]
+    jobs = [(repo_root, k, [], prop) for k in keys]
     workers = min(16, max(1, len(jobs) + len(lemma_idx)))
     results, lemma_results = [], []
     if os.environ.get("PYVC_SERIAL") or workers == 1:
@@ -105,7 +111,7 @@ def run_check(prop, tier, repo_root, only=None, verbose=False):
         """re-run one function under the negated case predicate of a known finding"""
         if fn_key.startswith("lemma::"):
             return "failed"
-        res = _verify_one((repo_root, fn_key, [f"not ({case})"]))
+        res = _verify_one((repo_root, fn_key, [f"not ({case})"], prop))
         if res["error"] or res["crash"]:
             return "undecided"
         e = res["obligations"].get(obname)
